@@ -202,7 +202,13 @@ func g04WriteErrorShape(f *File, fd *ast.FuncDecl) (keeps bool, err error) {
 		stmts = append(stmts, f.Src(s))
 	}
 	joined := strings.Join(stmts, " ;; ")
-	if !g04Has(calls, "maybeConnectErrorResponse(err)") || !g04Has(calls, "p.errorResponse(req, err)") {
+	hasMaybe := false
+	for _, c := range calls {
+		if strings.HasPrefix(c, "maybeConnectErrorResponse(") {
+			hasMaybe = true
+		}
+	}
+	if !hasMaybe || !g04Has(calls, "p.errorResponse(req, err)") {
 		return false, fmt.Errorf("%s writeErrorResponse: maybeConnectErrorResponse/errorResponse calls not found: %q", f.Path, calls)
 	}
 	switch {
